@@ -199,6 +199,7 @@ retry_fetch_lv:
     const std::uint64_t perm_at_fetch_lv{target_border->get_permutation().get_body()};
     link_or_value* lv_ptr = target_border->get_lv_of(
             key_tup.get_key_slice(), key_tup.get_key_length(), v_at_fetch_lv, lv_pos);
+    YAKUSHIMA_VERIF_POINT(4);
 
     // check
     if ((v_at_fetch_lv.get_vsplit() != v_at_fb.get_vsplit()) ||
@@ -474,6 +475,7 @@ retry_after_fb:
             }
         }
         // in range
+        YAKUSHIMA_VERIF_POINT(5);
         if (kl > sizeof(key_slice_type)) {
             base_node* child = lv->get_next_layer();
             if (child == nullptr) {
